@@ -36,7 +36,7 @@ IDENT = re.compile(r"^[A-Za-z_][A-Za-z0-9_]*(\.[A-Za-z_][A-Za-z0-9_]*)*$")
 # (bare, or nested in a list / dictionary argument); through a partial application; through a batch
 SHAPES = ["direct", "fnarg", "fnarg_nested", "partial", "batch"]
 EVOLUTIONS = ["unchanged", "edited", "removed", "renamed", "plain", "reclustered", "bumped", "edited_twice", "bumped_odd",
-              "reclustered_same_version", "signature_same_version"]
+              "reclustered_same_version", "signature_same_version", "signature_swapped", "signature_prepended"]
 ODD_VERSIONS = ["a::b", "1:2#3", "1.link", "x#y", "v=1+2", "@", ":", "1.0-rc.1"]
 
 
@@ -274,7 +274,8 @@ def run_store(case, out, fail):
 # ---------------------------------------------------------------- evolutions
 def evo_module(cluster, stage, evolution, shape="direct", oddi=0):
     callee_v1 = '@m.memento_function(cluster=CL%s)\ndef callee(x):\n    REC.hit("callee", x)\n    return x + 1\n'
-    ver1 = ', version="1"' if evolution in ("bumped", "reclustered_same_version", "signature_same_version") else ""
+    ver1 = ', version="1"' if evolution in ("bumped", "reclustered_same_version", "signature_same_version", "signature_swapped",
+                                            "signature_prepended") else ""
     if evolution == "bumped_odd":  # an explicit version with characters that mean something in qualified names / file names
         odd = ODD_VERSIONS[oddi % len(ODD_VERSIONS)]
         ver1 = ', version=%r' % odd
@@ -294,17 +295,21 @@ def evo_module(cluster, stage, evolution, shape="direct", oddi=0):
         callee = callee_v1.replace("cluster=CL%s", 'cluster="elsewhere"%s') % ""
     elif evolution == "signature_same_version":  # a parameter is dropped, the explicit version stays
         callee = (callee_v1 % ', version="1"').replace("def callee(x, extra=0):", "def callee(x):")
+    elif evolution == "signature_swapped":  # the two parameters change places, the explicit version stays
+        callee = (callee_v1 % ', version="1"').replace("def callee(x):", "def callee(extra=0, x=0):")
+    elif evolution == "signature_prepended":  # a new parameter in front of the others, the explicit version stays
+        callee = (callee_v1 % ', version="1"').replace("def callee(x):", "def callee(scale=1, x=0, extra=0):")
     elif evolution == "reclustered_same_version":  # moved to another cluster, its explicit version kept
         callee = callee_v1.replace("cluster=CL%s", 'cluster="elsewhere"%s') % ', version="1"'
     elif evolution == "bumped":
         callee = callee_v1 % ', version="2"'
     elif evolution == "bumped_odd":
         callee = callee_v1 % (', version=%r' % (ODD_VERSIONS[oddi % len(ODD_VERSIONS)] + "2"))
-    if evolution == "signature_same_version":
+    if evolution in ("signature_same_version", "signature_swapped", "signature_prepended"):
         if stage == 0:
             callee = callee.replace("def callee(x):", "def callee(x, extra=0):")
     cname = "callee_v2" if (evolution == "renamed" and stage > 0) else "callee"
-    if evolution == "signature_same_version" and shape == "direct" and stage == 0:
+    if evolution in ("signature_same_version", "signature_swapped", "signature_prepended") and shape == "direct" and stage == 0:
         cname = "callee"
         return ("import twosigma.memento as m\nfrom vf.recorder import REC\nCL = %r\n\n%s\n"
                 "@m.memento_function(cluster=CL, version=\"pinned\")\ndef caller(x):\n    REC.hit(\"caller\", x)\n"
@@ -460,7 +465,7 @@ def run_evolve(case, out, fail):
                     fail("stored entry is not listed after the code base evolved",
                          "%s stage %d: entry of the function that received the callee as an argument: %s" % (label, stage, al[2]))
                 for qn, external in al[2]["fn_args"]:
-                    if evolution == "signature_same_version":
+                    if evolution in ("signature_same_version", "signature_swapped", "signature_prepended"):
                         # (not judged: a function handed over as an argument is looked up again by name and version when
                         # the arguments are normalised; its recorded parameter names play no part there)
                         continue
